@@ -441,6 +441,70 @@ class CFTime(_Base):
         return {'obs': {'us': us}, 'violations': viol}
 
 
+
+class CFTimeInt32(CFTime):
+    """time coordinate stored as 32-bit integers with large offsets (hours
+    since 1900 in the 2000s): the decoding must not be done in that type"""
+
+    def __init__(self, unit='hours', ref='1900-01-01 00:00:00'):
+        CFTime.__init__(self, unit, ref, 'standard', False, 1)
+        self.name = 'getTimes-CF[%s since %s,int32 storage,large offsets]' \
+            % (unit, ref)
+        self.bounds = {'T': 1, 'offsets': 'integers in [900000, 1100000] '
+                       'units, stored as int32'}
+
+    def _build(self, F, vals, symbolic):
+        f = F()
+        f.createDimension('time', len(vals))
+        v = f.createVariable('time', 'O' if symbolic else 'i', ('time',))
+        v.units = '%s since %s' % (self.unit, self.ref)
+        v.calendar = self.cal
+        for i, x in enumerate(vals):
+            v[i] = x
+        if symbolic:
+            v._as_dtype = np.dtype('i4')
+        return f
+
+    def sym(self, ctx, h):
+        from verifx import shim
+        sp = self.space()
+        F = sp.twin('PseudoNetCDF.core._files').PseudoNetCDFFile
+        n = ctx.int('n0', 900000, 1100000)
+        f = self._build(F, [n], True)
+        shim.NARROW_INT_WRAP = True
+        try:
+            try:
+                out = self._profile(f.getTimes)
+            except Exception as ex:
+                h.candidate('raised:' + type(ex).__name__, repr(ex)[:200])
+                return
+        finally:
+            shim.NARROW_INT_WRAP = False
+        h.claim('count', z3.BoolVal(len(out) == 1))
+        if len(out) == 1:
+            h.claim('instant[0]',
+                    symx._b(out[0]._utc() == self._expected(n * 2)))
+        h.observe('us', [o._utc() for o in out])
+
+    def real(self, inputs):
+        import warnings
+        RF = common.real_files()
+        n = _g(inputs, 'n0', 1000000)
+        f = self._build(RF.PseudoNetCDFFile, [n], False)
+        viol = {}
+        try:
+            with warnings.catch_warnings():
+                warnings.simplefilter('ignore')
+                out = f.getTimes()
+        except Exception as ex:
+            viol['raised:' + type(ex).__name__] = repr(ex)[:200]
+            return {'obs': {}, 'violations': viol}
+        us = [self._us(o) for o in out]
+        if us[0] != self._expected(2 * n):
+            viol['instant[0]'] = '%r %s since %s decoded to %s' % (
+                n, self.unit, self.ref, out[0])
+        return {'obs': {'us': us}, 'violations': viol}
+
 def obligations(tier):
     obs = []
     Ts = (1, 2) if tier == 'quick' else (1, 2, 3, 4)
@@ -466,4 +530,7 @@ def obligations(tier):
                 else:
                     for yo in (-3, -2, -1, 0, 1, 2):
                         obs.append(CFTime(unit, ref, cal, False, 1, yo))
+    obs.append(CFTimeInt32())
+    if tier == 'thorough':
+        obs.append(CFTimeInt32('minutes', '1990-01-01 00:00:00'))
     return obs
